@@ -762,12 +762,10 @@ func (sd *SpecAnalyser) compareSimpleSchema(location DifferenceLocation, schema1
 		}
 	}
 
-	if isArray(schema1) {
-		if isArray(schema2) {
-			sd.compareSimpleSchema(location, &schema1.Items.SimpleSchema, &schema2.Items.SimpleSchema)
-		} else {
-			sd.addDiffs(location, addTypeDiff([]TypeDiff{}, TypeDiff{Change: ChangedType, FromType: getSchemaTypeStr(schema1), ToType: getSchemaTypeStr(schema2)}))
-		}
+	if isArray(schema1) != isArray(schema2) {
+		sd.addDiffs(location, addTypeDiff([]TypeDiff{}, TypeDiff{Change: ChangedType, FromType: getSchemaTypeStr(schema1), ToType: getSchemaTypeStr(schema2)}))
+	} else if isArray(schema1) && schema1.Items != nil && schema2.Items != nil {
+		sd.compareSimpleSchema(location, &schema1.Items.SimpleSchema, &schema2.Items.SimpleSchema)
 	}
 }
 
